@@ -25,10 +25,15 @@ EXPLANATION = ("the broad-phase theorems are proved for every state accepted by 
                "after every operation, compares every result of the faithful model (dict order included) with the "
                "implementation exactly, and checks the implementation against brute force and an all-pairs GJK table")
 PARTIAL = {
-    "poses_current_tree": "that the rebuilt tree's leaves are exactly the current AABBs is proved on the tree layer (C05 "
-                          "T.insert, from C05.history_leaves); that the array-level insert_aabb implements the tree-layer "
-                          "insertion (C05's insertLeaf_refines) is not proved: linkCheck is executed in Lean on the "
-                          "implementation's arrays after every operation instead",
+    "poses_current_tree (closed; admissibility remains)":
+        "closed in D3.C06Link: the rebuild loop of update_collider_poses is the C05 insertion history of one-box "
+        "batches (rebuild_is_insertion_history), so by C05Insert.insertLeaf_refines the ARRAYS pass wfCheck, encode "
+        "exactly buildT of the current AABBs and linkCheck holds by proof (poses_current_arrays, "
+        "update_poses_current_arrays); the C06 query/self-collision/detect theorems are restated without the linkCheck "
+        "hypothesis (synced_*_exact, synced_detect_eq_brute_force*). Remaining hypothesis: every AABB function returns "
+        "lo <= hi (Op.ValidAabb; discharged from C04 by c04_box_valid_encloses); a duplicate add_collider frame leaves "
+        "the synced states until the next update (real code behaviour, stated in the doc comment); linkCheck is still "
+        "executed on the implementation's arrays as the run-time tie",
 }
 ASSUMPTIONS = ["tm.get_transform(frame, 'origin') (pytransform3d kinematics, URDF parsing) is a parameter getT of the model",
                "gjk_intersection is an abstract predicate hit on frames; 'hit implies AABB overlap' (C04 + C02) is a "
